@@ -9,6 +9,21 @@ require (
 	github.com/uber-go/tally v3.3.11+incompatible
 	github.com/uber/kraken v0.0.0
 	go.uber.org/atomic v1.5.0
+	go.uber.org/zap v1.10.0
+)
+
+require (
+	github.com/aws/aws-sdk-go v1.21.4 // indirect
+	github.com/cespare/xxhash/v2 v2.3.0 // indirect
+	github.com/davecgh/go-spew v1.1.1 // indirect
+	github.com/jackpal/bencode-go v0.0.0-20180813173944-227668e840fa // indirect
+	github.com/pmezard/go-difflib v1.0.0 // indirect
+	github.com/spaolacci/murmur3 v0.0.0-20180118202830-f09979ecbc72 // indirect
+	github.com/stretchr/testify v1.11.1 // indirect
+	go.opentelemetry.io/otel v1.41.0 // indirect
+	go.opentelemetry.io/otel/trace v1.41.0 // indirect
+	go.uber.org/multierr v1.4.0 // indirect
+	gopkg.in/yaml.v3 v3.0.1 // indirect
 )
 
 replace github.com/uber/kraken => /repo
